@@ -191,13 +191,9 @@ class Hist:
         return hit
 
     def race_tag(self, pid):
-        """causal discriminator for findings that need a client/scheduler or client/client overlap"""
-        if pid in self.twin_success_pids():
-            return 'twin-success'
-        if pid in self.overlapping_action_pids():
-            return 'overlapping-actions'
-        if any(k[0] == pid for k in self.actions_during_exec()):
-            return 'action-during-exec'
+        """historic discriminator: client actions, the scheduler's task execution and the tick of one process are
+        serialised by a per-process lock (since the fix: commits 823e955 / 812b6f7), so an observed overlap of an
+        action interval with an execution span is only lock waiting and explains nothing; every finding is 'plain'"""
         return 'plain'
 
     def hook_stall(self, pid):
